@@ -91,7 +91,11 @@ Definition cc_table_respects_headers (tab : list ccentry) : bool :=
 Inductive rop :=
 | RServe (u : string) (code : int) (json : bool) (v : int) (pk : int) (neg : bool) (n : int)
 | RServeAlt (u : string) (code : int) (json : bool) (v : int) (pk : int) (neg : bool) (n : int)
-            (target : string)      (* the same with `Link: <target>; rel="alternate"` and text/html *)
+            (target : string) (jsonct : bool)
+    (* the same with `Link: <target>; rel="alternate"; type="application/ld+json"`.  jsonct: the media
+       type of the response WITHOUT its parameters (mime.ParseMediaType, fix 04a0982) matches
+       ^application/(\w*\+)?json$ — then loadDocumentFromHTTP does not follow the link and parses the
+       body: for the model this is a response without alternate link *)
 | RDown (u : string)                 (* transport failure from now on *)
 | RLoad (u : string)
 | RTick (dt : int).
@@ -103,9 +107,10 @@ Definition op_of (r : rop) : option op :=
       | Some p => Some (Serve u (RResp (zi code) (if json then BJson (zi v) else BGarbage) p None))
       | None => None
       end
-  | RServeAlt u code json v pk neg n target =>
+  | RServeAlt u code json v pk neg n target jsonct =>
       match policy_of pk (zs neg n) with
-      | Some p => Some (Serve u (RResp (zi code) (if json then BJson (zi v) else BGarbage) p (Some target)))
+      | Some p => Some (Serve u (RResp (zi code) (if json then BJson (zi v) else BGarbage) p
+                                       (if jsonct then None else Some target)))
       | None => None
       end
   | RDown u => Some (Serve u RTransport)
